@@ -127,7 +127,30 @@ def build_fn(src_root, d, contract, hint_specs, tailproof, vacuity):
     except rsparse.NotFound as e:
         raise GenError(f'anchor lost: {e}')
     ret = d.get('ret', 'r')
+    closure_note = None
+    if d.get('closure'):
+        # rule 14: the body of the (single) closure opened by the text `closure=` becomes a step function: the captured mutable variable
+        # `state=` is a local initialised from the parameter `<state>0` and returned next to the closure's value; the signature comes from
+        # `stepsig=`.  Everything of the function outside the closure body (the wrapper) is NOT verified here; its normalised hash is pinned.
+        body0 = f['body']
+        op = d['closure']
+        if body0.count(op) != 1 or not op.rstrip().endswith('{'):
+            raise GenError(f"anchor lost: closure opener `{op}` does not occur exactly once in {d['fn']}")
+        code0 = rsparse._scan_mask(body0)
+        ob = body0.index(op) + len(op.rstrip()) - 1
+        cb = rsparse.match_brace(body0, code0, ob)
+        inner = body0[ob + 1:cb]
+        wrapper = body0[:ob + 1] + ' .. ' + body0[cb:]
+        wsha = hashlib.sha256(re.sub(r'\s+', ' ', rsparse.strip_comments(wrapper)).strip().encode()).hexdigest()[:16]
+        if d.get('wrapsha') and d['wrapsha'] != wsha:
+            raise GenError(f"trusted span changed: the text of {d['fn']} around the closure body (normalised sha256 {wsha}) is not the text the step contract was written for ({d['wrapsha']})")
+        st = d['state']
+        f = dict(f, body=f"\n        let mut {st} = {st}0;\n        let __v = {{{inner}}};\n        (__v, {st})\n    ", sig=d['stepsig'])
+        closure_note = (f"closure body `{op} .. }}` extracted as a step function (captured `{st}` = local initialised from parameter `{st}0`, returned with the value); "
+                        f"the wrapper around it ({wrapper.count(chr(10)) + 1} lines, normalised sha256 {wsha}) is NOT verified here")
     sig, has_ret = name_return(f['sig'], ret)
+    if d.get('closure'):
+        sig, has_ret = f['sig'], True
     if d.get('mode') == 'contract-only':
         sig = re.sub(r'([(,]\s*)_(\s*:)', r'\1_unused\2', sig)
         text = (f"    // ---- contract only (assumed in this unit; the body at {d['file']}:{f['line0']}-{f['line1']} is verified in another unit) ----\n"
@@ -146,6 +169,8 @@ def build_fn(src_root, d, contract, hint_specs, tailproof, vacuity):
             sig = sig.replace(a, b)
     parts = rsparse.split_top_level(f['body'])
     subs_done = []
+    if closure_note:
+        subs_done.append(closure_note)
     if d.get('breakvalue'):
         # rule 11: `loop { .. break E; .. }` in value position -> `{ let mut __brk = None; loop { .. { __brk = Some(E); break; } .. } __brk.unwrap() }`
         n_done = 0
